@@ -271,6 +271,9 @@ impl Directive {
                             messages: messages.clone(),
                         };
                         parse_file_internal(&context)?;
+                        for path in context.include_paths.borrow().iter() {
+                            include_paths.borrow_mut().insert(path.clone());
+                        }
                     } else {
                         bail!("wrong format for .include, expected: {} in {}", opts, point,);
                     }
